@@ -3,6 +3,11 @@
 //! must do with them is decided by the specification.
 use rand::{rngs::StdRng, Rng};
 
+thread_local! {
+    /// (width, bit pattern) of every float emitted by the last gen_item call, in input order
+    pub static FLOATS: std::cell::RefCell<Vec<(u8, Vec<u8>)>> = std::cell::RefCell::new(Vec::new());
+}
+
 pub struct Opts {
     pub max_depth: u32,
     pub max_nodes: u32,
@@ -93,9 +98,9 @@ pub fn item(rng: &mut StdRng, o: &Opts, depth: u32, budget: &mut u32, out: &mut 
         }
         5 => if o.floats {
             match rng.gen_range(0..3) {
-                0 => { out.push(0xf9); out.extend_from_slice(&rng.gen::<u16>().to_be_bytes()) }
-                1 => { out.push(0xfa); out.extend_from_slice(&rng.gen::<u32>().to_be_bytes()) }
-                _ => { out.push(0xfb); out.extend_from_slice(&rng.gen::<u64>().to_be_bytes()) }
+                0 => { let b = rng.gen::<u16>().to_be_bytes(); out.push(0xf9); out.extend_from_slice(&b); FLOATS.with(|f| f.borrow_mut().push((2, b.to_vec()))) }
+                1 => { let b = rng.gen::<u32>().to_be_bytes(); out.push(0xfa); out.extend_from_slice(&b); FLOATS.with(|f| f.borrow_mut().push((4, b.to_vec()))) }
+                _ => { let b = rng.gen::<u64>().to_be_bytes(); out.push(0xfb); out.extend_from_slice(&b); FLOATS.with(|f| f.borrow_mut().push((8, b.to_vec()))) }
             }
         } else { out.push(0xf6) }
         6 => { let a = rng.gen_range(0..24); head(out, 0, a, 0) }
@@ -122,6 +127,7 @@ pub fn item(rng: &mut StdRng, o: &Opts, depth: u32, budget: &mut u32, out: &mut 
 }
 
 pub fn gen_item(rng: &mut StdRng, o: &Opts) -> Vec<u8> {
+    FLOATS.with(|f| f.borrow_mut().clear());
     let mut out = Vec::new();
     let mut budget = o.max_nodes;
     item(rng, o, 0, &mut budget, &mut out);
